@@ -1,7 +1,9 @@
 package props
 
 import (
+	"fmt"
 	"math"
+	"sort"
 	"strconv"
 	"testing"
 
@@ -9,7 +11,9 @@ import (
 
 	"github.com/tdakkota/docker-logql/verifharness/canon"
 	"github.com/tdakkota/docker-logql/verifharness/datagen"
+	"github.com/tdakkota/docker-logql/verifharness/dl"
 	"github.com/tdakkota/docker-logql/verifharness/evid"
+	"github.com/tdakkota/docker-logql/verifharness/fakedocker"
 	"github.com/tdakkota/docker-logql/verifharness/gen"
 	"github.com/tdakkota/docker-logql/verifharness/mockstore"
 	"github.com/tdakkota/docker-logql/verifharness/model"
@@ -332,4 +336,138 @@ func sortStringsT(s []string) {
 // TestC12 decides C12.
 func TestC12(t *testing.T) {
 	evid.Run(t, "C12", c12Gen, c12Check)
+}
+
+// C12DockerCase: a binary operation between two selections over the Docker backend. Each side is
+// also evaluated as a query of its own; the operation has to be their pointwise combination.
+type C12DockerCase struct {
+	Ctrs    [][]int64 `json:"ctrs"` // per container: offsets of its lines from the base, odd milliseconds
+	SelL    string    `json:"sel_l"`
+	SelR    string    `json:"sel_r"`
+	Op      string    `json:"op"`
+	RangeMs int64     `json:"range_ms"`
+	StepMs  int64     `json:"step_ms"`
+	Steps   int       `json:"steps"`
+	ByL     string    `json:"by_l"` // grouping of the left side ("container" or "")
+	ByR     string    `json:"by_r"`
+}
+
+func c12DockerCheck(c C12DockerCase) (r evid.Result) {
+	const base = int64(1700000000e9)
+	build := func() *fakedocker.Daemon {
+		d := &fakedocker.Daemon{}
+		for i, offs := range c.Ctrs {
+			var lines []dl.Line
+			for j, o := range offs {
+				lines = append(lines, dl.Line{TS: base + o*1e6, Msg: fmt.Sprintf("c%d line %d", i, j)})
+			}
+			d.Containers = append(d.Containers, dl.Ctr(fmt.Sprintf("id%d", i), fmt.Sprintf("c%d", i), map[string]string{"parity": []string{"even", "odd"}[i%2]}, lines))
+		}
+		return d
+	}
+	side := func(sel, by string) string {
+		q := fmt.Sprintf("count_over_time(%s[%dms])", sel, c.RangeMs)
+		if by == "" {
+			return "sum(" + q + ")"
+		}
+		return "sum by (" + by + ") (" + q + ")"
+	}
+	p := dl.Params{Start: base, End: base + int64(c.Steps)*c.StepMs*1e6, Step: c.StepMs * 1e6, Limit: -1}
+	eval := func(q string) (map[string]map[int64]float64, *evid.Violation) {
+		d := build()
+		data, err := dl.Eval(d, q, p)
+		d.Done()
+		if err != nil {
+			return nil, evid.Viol("C12/docker-eval-error", "query %s failed: %v", q, err)
+		}
+		m, err := canon.MetricOf(data)
+		if err != nil {
+			return nil, evid.Viol("C12/docker-result", "%s: %v", q, err)
+		}
+		pm, _, dups := canon.PointMap(m)
+		if len(dups) > 0 {
+			return nil, evid.Viol("C12/docker-duplicate", "%s: %v", q, dups)
+		}
+		return pm, nil
+	}
+	lq, rq := side(c.SelL, c.ByL), side(c.SelR, c.ByR)
+	whole := lq + " " + c.Op + " " + rq
+	L, v := eval(lq)
+	if v != nil {
+		r.Violation = v
+		return r
+	}
+	R, v := eval(rq)
+	if v != nil {
+		r.Violation = v
+		return r
+	}
+	got, v := eval(whole)
+	if v != nil {
+		r.Violation = v
+		return r
+	}
+	r.Evals = 3
+	want := map[string]map[int64]float64{}
+	keys := map[string]bool{}
+	for k := range L {
+		keys[k] = true
+	}
+	for k := range R {
+		keys[k] = true
+	}
+	differ := false
+	for k := range keys {
+		for t := 0; t <= c.Steps; t++ {
+			ts := (base + int64(t)*c.StepMs*1e6) / 1e6
+			lv, lok := L[k][ts]
+			rv, rok := R[k][ts]
+			differ = differ || lok != rok
+			res := c13Apply(c.Op, optVal{ok: lok, v: lv}, optVal{ok: rok, v: rv})
+			if res.ok {
+				if want[k] == nil {
+					want[k] = map[int64]float64{}
+				}
+				want[k][ts] = res.v
+			}
+		}
+	}
+	r.Class(c.SelL != c.SelR, "two-different-selections")
+	r.Class(differ, "a-side-is-missing-somewhere")
+	r.NonTrivial = c.SelL != c.SelR && len(L) > 0 && len(R) > 0
+	if diff := canon.DiffPointMaps(got, want); diff != "" {
+		r.Violation = evid.Viol("C12/docker-not-pointwise", "%s over %d containers (line offsets in ms %v, step %dms x %d) is not the pointwise combination of its sides evaluated alone: %s", whole, len(c.Ctrs), c.Ctrs, c.StepMs, c.Steps, diff)
+	}
+	return r
+}
+
+func c12DockerGen(t *rapid.T) C12DockerCase {
+	var c C12DockerCase
+	n := rapid.IntRange(1, 5).Draw(t, "containers")
+	for i := 0; i < n; i++ {
+		m := rapid.IntRange(0, 6).Draw(t, "lines")
+		span := rapid.SampledFrom([]int64{10, 40, 120}).Draw(t, "span")
+		offs := make([]int64, m)
+		for j := range offs {
+			offs[j] = rapid.Int64Range(0, span).Draw(t, "off")*2 + 1
+		}
+		sort.Slice(offs, func(a, b int) bool { return offs[a] < offs[b] })
+		c.Ctrs = append(c.Ctrs, offs)
+	}
+	sels := []string{`{}`, `{container="c0"}`, `{container="c1"}`, `{container=~"c[12]"}`, `{container!="c0"}`, `{parity="even"}`, `{parity="odd"}`, `{nosuch="x"}`}
+	c.SelL = rapid.SampledFrom(sels).Draw(t, "sel-l")
+	c.SelR = rapid.SampledFrom(sels).Draw(t, "sel-r")
+	c.Op = rapid.SampledFrom([]string{"+", "-", "/", "*", ">", "<=", "==", "and", "or", "unless", "and", "unless"}).Draw(t, "op")
+	c.RangeMs = rapid.SampledFrom([]int64{2, 10, 20, 100}).Draw(t, "range")
+	c.StepMs = rapid.SampledFrom([]int64{2, 4, 10, 20, 50}).Draw(t, "step")
+	c.Steps = rapid.IntRange(0, 30).Draw(t, "steps")
+	by := rapid.SampledFrom([]string{"container", "container", "parity", ""}).Draw(t, "by")
+	c.ByL, c.ByR = by, by
+	return c
+}
+
+// TestC12Docker decides C12's vector-vector sentences over the Docker backend, where the two
+// sides are two selections resolved by one Querier.
+func TestC12Docker(t *testing.T) {
+	evid.Run(t, "C12", c12DockerGen, c12DockerCheck)
 }
